@@ -27,10 +27,19 @@ Qed.
 Lemma bytes_eqb_refl : forall a, bytes_eqb a a = true.
 Proof. induction a as [|x a IH]; cbn [bytes_eqb]; [reflexivity|]. rewrite Z.eqb_refl, IH. reflexivity. Qed.
 
+Lemma from_off_eq : forall img off, from_off img off = skipn (Z.to_nat off) img.
+Proof.
+  induction img as [|x r IH]; intros off; cbn [from_off].
+  - destruct (off <=? 0); rewrite skipn_nil; reflexivity.
+  - destruct (Z.leb_spec off 0) as [H|H].
+    + replace (Z.to_nat off) with 0%nat by lia. reflexivity.
+    + replace (Z.to_nat off) with (S (Z.to_nat (off - 1))) by lia. cbn [skipn]. apply IH.
+Qed.
+
 Lemma placed_skipn img off bs :
   placed img off bs = true -> 0 <= off /\ exists tail, skipn (Z.to_nat off) img = bs ++ tail.
 Proof.
-  unfold placed. intros H. apply andb_prop in H. destruct H as [H0 H1].
+  unfold placed. rewrite from_off_eq. intros H. apply andb_prop in H. destruct H as [H0 H1].
   apply bytes_eqb_eq in H1. split; [lia|].
   exists (skipn (List.length bs) (skipn (Z.to_nat off) img)).
   pose proof (firstn_skipn (List.length bs) (skipn (Z.to_nat off) img)) as E.
@@ -40,7 +49,7 @@ Qed.
 (* the converse: a record sitting between any prefix and any tail is placed *)
 Lemma placed_app pre bs tail : placed (pre ++ bs ++ tail) (zlen pre) bs = true.
 Proof.
-  unfold placed, zlen. rewrite Nat2Z.id.
+  unfold placed. rewrite from_off_eq. unfold zlen. rewrite Nat2Z.id.
   rewrite skipn_app, skipn_all, Nat.sub_diag. cbn [skipn app].
   rewrite firstn_app, firstn_all, Nat.sub_diag. cbn [firstn]. rewrite app_nil_r.
   rewrite bytes_eqb_refl. lia.
